@@ -84,7 +84,7 @@ package snapshot
 // Reaping runs only between BeginWrite and EndWrite of the store lock.
 //@ func (*Store) Reap
 //@   requires [recv] s != nil && s.mrsw != nil
-//@   assigns *, chanClosed, condBcast, abVal, released, timerRunning, timerDur, timerFn
+//@   assigns **
 //@   ghost var w bool = false
 //@   ghost update @s.mrsw.BeginWrite: w = (result == nil)
 //@   assert @s.reap: [writer-held] w
